@@ -301,10 +301,66 @@ func registryChurn(r *rep.Report, bursts int) {
 	r.Case("registry-churn", true)
 }
 
+// registryDeleteVsPromotion: a session closes; the removal of its table entry is held in the
+// table's slow path (hook map.slowPath) while look-ups promote the table's dirty map; afterwards
+// the closed session must be gone from the table and the count must agree.
+func registryDeleteVsPromotion(r *rep.Report, others int) (key, msg string, held bool) {
+	so := &config.ServerOptions{}
+	so.SetPingInterval(time.Hour)
+	eng := engine.NewServer(so)
+	defer eng.Close()
+	open := func() engine.Socket {
+		rec := httptest.NewRecorder()
+		eng.ServeHTTP(rec, httptest.NewRequest("GET", "http://h/engine.io/?EIO=4&transport=polling", nil))
+		body := rec.Body.String()
+		k := strings.Index(body, `"sid":"`)
+		if k < 0 {
+			return nil
+		}
+		sid := body[k+7:]
+		s, _ := eng.Clients().Load(sid[:strings.Index(sid, `"`)])
+		return s
+	}
+	for i := 0; i < others; i++ {
+		open()
+	}
+	// bring every existing key into the read map, then add the victim: it lives in the dirty map only
+	for i := 0; i < 2*others+2; i++ {
+		eng.Clients().Load("nobody")
+	}
+	victim := open()
+	if victim == nil {
+		return "", "", false
+	}
+	g := rig.NewGate()
+	g.Watch(eng.Clients())
+	defer g.Close()
+	g.Arm("map.slowPath", 1)
+	done := make(chan struct{})
+	go func() { victim.Close(true); close(done) }()
+	deadline := time.Now().Add(5 * time.Second)
+	for len(g.Parked()) == 0 && time.Now().Before(deadline) {
+		rig.Settle()
+	}
+	held = len(g.Parked()) == 1
+	for i := 0; i < 2*others+6; i++ {
+		eng.Clients().Load(victim.Id())
+	}
+	g.ReleaseAll()
+	<-done
+	if _, ok := eng.Clients().Load(victim.Id()); ok {
+		return "c04-closed-session-registered", fmt.Sprintf("session %s closed (state %s) while look-ups promoted the client table's dirty map: it is still in the table (table %d, count %d)", victim.Id(), victim.ReadyState(), eng.Clients().Len(), eng.ClientsCount()), held
+	}
+	if eng.Clients().Len() != others || eng.ClientsCount() != uint64(others) {
+		return "c04-count-drift", fmt.Sprintf("after the close: table %d, count %d, live sessions %d", eng.Clients().Len(), eng.ClientsCount(), others), held
+	}
+	return "", "", held
+}
+
 func TestC04(t *testing.T) {
 	r := rep.New(t, "C04")
 	defer r.Flush()
-	r.Rule("PRNG histories of 4-18 operations on one server: handshakes on three transports, every close cause, upgrades, requests naming closed sessions, sessions killed while their handshake is held at server.Handshake.afterNewSocket, final Server.Close (window operation on all three transports with six causes); a real-time churn lane of 32 goroutines handshaking and closing concurrently; after EVERY operation the bubble is brought to quiescence and the invariant is evaluated (table == count == live announced sessions, no closed session reachable, no underflow); ids checked for uniqueness and alphabet across the process plus 16-goroutine GenerateId storms, also with crypto/rand replaced by a constant reader; distinct = operation sequences")
+	r.Rule("PRNG histories of 4-18 operations on one server: handshakes on three transports, every close cause, upgrades, requests naming closed sessions, sessions killed while their handshake is held at server.Handshake.afterNewSocket, final Server.Close (window operation on all three transports with six causes); a real-time churn lane of 32 goroutines handshaking and closing concurrently; a gate lane holding the table's delete of a closing session in the map's slow path (hook map.slowPath) across a promotion; after EVERY operation the bubble is brought to quiescence and the invariant is evaluated (table == count == live announced sessions, no closed session reachable, no underflow); ids checked for uniqueness and alphabet across the process plus 16-goroutine GenerateId storms, also with crypto/rand replaced by a constant reader; distinct = operation sequences")
 	r.Assume("with a degenerate random source ids must still be unique: the guarantee rests on the monotone sequence number inside the id, not on luck")
 	n := r.N(2000, 100000)
 	for i := 0; i < n; i++ {
@@ -329,6 +385,17 @@ func TestC04(t *testing.T) {
 		}
 	}
 	registryChurn(r, r.N(4*6, 16*60)/max(r.Lanes, 1))
+	for k := 0; k < r.N(16, 800); k++ {
+		others := 1 + k%4
+		key, msg, held := registryDeleteVsPromotion(r, others)
+		r.Case(fmt.Sprintf("registry-delete-vs-promotion/%d", others), held)
+		if held {
+			r.Obs("gate:table_delete_held_in_slow_path_across_promotion", 1)
+		}
+		if key != "" {
+			r.Violation(key, msg, map[string]any{"lane": "table delete held in the map's slow path while look-ups promote the dirty map", "other_sessions": others})
+		}
+	}
 	per := r.N(16*3000, 16*150000) / 16
 	idStorm(r, "base64id", 16, per, func() (string, error) { return utils.Base64Id().GenerateId() })
 	// degenerate random source
